@@ -6,6 +6,8 @@
 #include <signal.h>
 #include <fcntl.h>
 #include <sys/stat.h>
+#include <sys/mman.h>
+#include <sys/prctl.h>
 
 static char *replay_tape;   // text of a tape to replay / force
 run_ctx RC;
@@ -58,13 +60,21 @@ static void send_result(void) {
 	}
 }
 static char *tape_text; static size_t tape_text_cap;
+// the buffer comes from mmap and the file is written with plain system calls: this also runs from the crash handler,
+// possibly with the allocator's lock held (glibc aborting on a corrupted heap) or the heap in an unknown state
 static void write_tape_file(void) {
 	const char *path = getenv("DSIM_TAPE_OUT");
 	if (!path) return;
-	if (!tape_text) { tape_text_cap = 8 << 20; tape_text = malloc(tape_text_cap); }
+	if (!tape_text) {
+		tape_text_cap = 8 << 20;
+		void *m = mmap(NULL, tape_text_cap, PROT_READ | PROT_WRITE, MAP_PRIVATE | MAP_ANONYMOUS, -1, 0);
+		if (m == MAP_FAILED) return;
+		tape_text = m;
+	}
 	size_t n = sim_tape_dump(tape_text, tape_text_cap);
-	FILE *f = fopen(path, "w"); if (!f) return;
-	fwrite(tape_text, 1, n, f); fclose(f);
+	int fd = open(path, O_WRONLY | O_CREAT | O_TRUNC, 0644); if (fd < 0) return;
+	for (size_t o = 0; o < n; ) { ssize_t w = write(fd, tape_text + o, n - o); if (w <= 0) break; o += (size_t)w; }
+	close(fd);
 }
 void h_viol(const char *clause, const char *fmt, ...) {
 	RES.verdict = V_VIOLATION;
@@ -305,6 +315,7 @@ static void fork_run(outcome *o, int wall_timeout_s) {
 	if (pid < 0) { perror("fork"); exit(2); }
 	if (pid == 0) {
 		close(pfd[0]); res_fd = pfd[1];
+		prctl(PR_SET_PDEATHSIG, SIGKILL);   // a run never outlives the process that judges it
 		if (errpath[0] && !RC.verbose) {
 			int e = open(errpath, O_WRONLY | O_CREAT | O_TRUNC, 0644);
 			if (e >= 0) { dup2(e, 2); close(e); }
